@@ -211,6 +211,7 @@ def run(ctx):
                 "group/value mismatch). Every project is run on both builds (suppress_key_warnings off/on). Non-trivial = at "
                 "least 2 locales and either a warning or an error; distinct by (build, inherits, namespaces, key-tree shapes)"
                 % ("a 240-element sample in quick" if ctx.quick else "all 708"),
+        "directed_rule": "Then directed projects: every feasible pair of values of the quantifier's dimensions (evidence field `pairwise`: key state x depth x namespace index x locale position x state of the previously merged locale x inherits kind x absent-vs-surplus balance x number of locales x outcome x build) left empty by the above is filled by a project built for it (checks/cov_merge.py).",
         "samples": [{"project": m["project"], "impl": m["impl"]["raw"][:600]} for m in metas[:2] + metas[-2:]],
         "traces_validated_against_impl": len(metas), "disagreements": len(dis), "spec_failures_on_impl": len(bad),
         "skipped_outside_model": len(skipped), "panics": len(panics),
